@@ -49,13 +49,25 @@ instance : Inhabited Step := ⟨.mk .self .node []⟩
 /-- `//` is short for `/descendant-or-self::node()/` -/
 def dosStep : Step := .mk .descendantOrSelf .node []
 
-def axisOfName (s : String) : Axis :=
-  match s with
-  | "ancestor-or-self" => .ancestorOrSelf | "ancestor" => .ancestor | "attribute" => .attribute
-  | "child" => .child | "descendant-or-self" => .descendantOrSelf | "descendant" => .descendant
-  | "following-sibling" => .followingSibling | "following" => .following | "namespace" => .namespace
-  | "parent" => .parent | "preceding-sibling" => .precedingSibling | "preceding" => .preceding
-  | _ => .self
+/-- the axis names of production [6], as character lists -/
+def axisTable : List (Str × Axis) :=
+  [(['a', 'n', 'c', 'e', 's', 't', 'o', 'r', '-', 'o', 'r', '-', 's', 'e', 'l', 'f'], .ancestorOrSelf),
+   (['a', 'n', 'c', 'e', 's', 't', 'o', 'r'], .ancestor),
+   (['a', 't', 't', 'r', 'i', 'b', 'u', 't', 'e'], .attribute),
+   (['c', 'h', 'i', 'l', 'd'], .child),
+   (['d', 'e', 's', 'c', 'e', 'n', 'd', 'a', 'n', 't', '-', 'o', 'r', '-', 's', 'e', 'l', 'f'], .descendantOrSelf),
+   (['d', 'e', 's', 'c', 'e', 'n', 'd', 'a', 'n', 't'], .descendant),
+   (['f', 'o', 'l', 'l', 'o', 'w', 'i', 'n', 'g', '-', 's', 'i', 'b', 'l', 'i', 'n', 'g'], .followingSibling),
+   (['f', 'o', 'l', 'l', 'o', 'w', 'i', 'n', 'g'], .following),
+   (['n', 'a', 'm', 'e', 's', 'p', 'a', 'c', 'e'], .namespace),
+   (['p', 'a', 'r', 'e', 'n', 't'], .parent),
+   (['p', 'r', 'e', 'c', 'e', 'd', 'i', 'n', 'g', '-', 's', 'i', 'b', 'l', 'i', 'n', 'g'], .precedingSibling),
+   (['p', 'r', 'e', 'c', 'e', 'd', 'i', 'n', 'g'], .preceding),
+   (['s', 'e', 'l', 'f'], .self)]
+
+def axisOfStr (s : Str) : Axis := ((axisTable.find? (·.1 == s)).map (·.2)).getD .self
+
+def axisOfName (s : String) : Axis := axisOfStr s.toList
 
 def isWsStr (s : Str) : Bool := s.all fun c => c == ' ' || c == '\t' || c == '\r' || c == '\n'
 
@@ -86,13 +98,13 @@ def absExprF : Nat → CST → Expr          -- body of any of the expression-le
 def absNode : Nat → Nat → CST → Expr
   | 0, _, _ => .lit []
   | f+1, n, b =>
-    if n == N.or_expr then absChain f [("or", BinOp.or)] b
-    else if n == N.and_expr then absChain f [("and", BinOp.and)] b
-    else if n == N.equality_expr then absChain f [("=", BinOp.eq), ("!=", BinOp.ne)] b
-    else if n == N.relation_expr then absChain f [("<=", BinOp.le), (">=", BinOp.ge), ("<", BinOp.lt), (">", BinOp.gt)] b
-    else if n == N.additive_expr then absChain f [("+", BinOp.add), ("-", BinOp.sub)] b
-    else if n == N.multiplicative_expr then absChain f [("*", BinOp.mul), ("div", BinOp.div), ("mod", BinOp.mod)] b
-    else if n == N.union_expr then absChain f [("|", BinOp.union)] b
+    if n == N.or_expr then absChain f [(['o', 'r'], BinOp.or)] b
+    else if n == N.and_expr then absChain f [(['a', 'n', 'd'], BinOp.and)] b
+    else if n == N.equality_expr then absChain f [(['='], BinOp.eq), (['!', '='], BinOp.ne)] b
+    else if n == N.relation_expr then absChain f [(['<', '='], BinOp.le), (['>', '='], BinOp.ge), (['<'], BinOp.lt), (['>'], BinOp.gt)] b
+    else if n == N.additive_expr then absChain f [(['+'], BinOp.add), (['-'], BinOp.sub)] b
+    else if n == N.multiplicative_expr then absChain f [(['*'], BinOp.mul), (['d', 'i', 'v'], BinOp.div), (['m', 'o', 'd'], BinOp.mod)] b
+    else if n == N.union_expr then absChain f [(['|'], BinOp.union)] b
     else if n == N.unary_expr then
       let minus := (sigToks b).filter fun | .leaf _ => true | _ => false
       let inner := match (sigToks b).filterMap (fun | .node m x => some (m, x) | _ => none) with
@@ -116,13 +128,13 @@ def absBody : Nat → CST → Expr
     | (n, b) :: _ => absNode f n b
     | [] => .lit []
 /-- `operand (op operand)*`, left-associative -/
-def absChain : Nat → List (String × BinOp) → CST → Expr
+def absChain : Nat → List (Str × BinOp) → CST → Expr
   | 0, _, _ => .lit []
   | f+1, ops, c =>
     let rec go (acc : Option Expr) (pending : Option BinOp) : List Tok → Option Expr
       | [] => acc
       | .leaf s :: r =>
-        go acc (((ops.find? (fun p => p.1.toList == s)).map (·.2)) <|> pending) r
+        go acc (((ops.find? (fun p => p.1 == s)).map (·.2)) <|> pending) r
       | .node n b :: r =>
         let e := absNode f n b
         match acc, pending with
@@ -161,7 +173,7 @@ def absStep : Nat → CST → Step            -- body of `step`
     | ts =>
       let axis := match ts.findSome? fun | .node n b => if n == N.axis_specifier then some b else none | _ => none with
         | some a => (match a.kidsL with
-            | [(_, nm)] => axisOfName (String.ofList nm.flatten)
+            | [(_, nm)] => axisOfStr nm.flatten
             | _ => if a.flatten == ['@'] then Axis.attribute else Axis.child)
         | none => Axis.child
       let test := match ts.findSome? fun | .node n b => if n == N.node_test then some b else none | _ => none with
@@ -203,9 +215,9 @@ def absNodeTest (c : CST) : NodeTest :=   -- body of `node_test`
      | none =>
        match ts.findSome? fun | .node n b => if n == N.node_type then some b else none | _ => none with
        | some t =>
-         let s := String.ofList t.flatten
-         if s == "comment" then .comment else if s == "text" then .text
-         else if s == "processing-instruction" then .pi none else .node
+         let s := t.flatten
+         if s == ['c', 'o', 'm', 'm', 'e', 'n', 't'] then .comment else if s == ['t', 'e', 'x', 't'] then .text
+         else if s == ['p', 'r', 'o', 'c', 'e', 's', 's', 'i', 'n', 'g', '-', 'i', 'n', 's', 't', 'r', 'u', 'c', 't', 'i', 'o', 'n'] then .pi none else .node
        | none => .node)
 end
 
